@@ -158,9 +158,20 @@ func (env *Env) call(e *ECall) TV {
 		return TV{toReal(a.T), "Real", types.Typ[types.Float64]}
 	case "floor":
 		a := arg(0)
+		if env.qdepth == 0 && !env.specBody {
+			k := fc.freshConst("sfloor", "Int")
+			fc.fact("", "(and (<= (to_real %s) %s) (< %s (+ (to_real %s) 1.0)))", k, a.T, a.T, k)
+			return TV{k, "Int", I}
+		}
 		return TV{fmt.Sprintf("(to_int %s)", a.T), "Int", I}
 	case "ceil":
 		a := arg(0)
+		if env.qdepth == 0 && !env.specBody {
+			// outside quantifiers: an integer witness k with k-1 < x <= k (a conservative extension; solvers cope far better)
+			k := fc.freshConst("sceil", "Int")
+			fc.fact("", "(and (< (- (to_real %s) 1.0) %s) (<= %s (to_real %s)))", k, a.T, a.T, k)
+			return TV{k, "Int", I}
+		}
 		return TV{fmt.Sprintf("(- (to_int (- %s)))", a.T), "Int", I}
 	case "trunc":
 		a := arg(0)
